@@ -1,4 +1,5 @@
 import Cd.Basic
+import Cd.Couples
 
 /-! # C17 — property theorems (statements only; proofs live in the family libraries) -/
 
@@ -13,6 +14,15 @@ theorem row_roundtrip :
     ∀ (row : List Int) (hb : ∀ v ∈ row, v < U32),
     decRow row.length (encRow row) = row.map (fun v => if v < 0 then 0 else v) :=
   @Cd.row_roundtrip
+end
+
+section
+open CdC
+
+/-- couples matrices: reading back the CSR encoding gives the same rows (explicit zero entries included) -/
+theorem couples_decode_encode :
+    ∀ (m : List Row), decode (encode m) = m :=
+  @CdC.decode_encode
 end
 
 end Props.C17
